@@ -51,7 +51,8 @@ def case(draw):
     N = draw(st.integers(1, 4))
     if kind == "dot":
         return {"kind": kind, "lines": lines, "P": P, "c": draw(change), "M": draw(st.lists(st.sampled_from(MOTIONS), max_size=2)), "N": N, "S": S}
-    body = draw(st.lists(st.one_of(cmdtok, st.just("."), st.just("2.")).filter(lambda t: "\n" not in t and "\x00" not in t), min_size=1, max_size=5))     # (the macro is stored in one NUL-free buffer line)     # the macro is stored in one buffer line
+    # (^L re-initialises the terminal in the middle of the body: what is still pending of the register must survive that)
+    body = draw(st.lists(st.one_of(cmdtok, cmdtok, st.just("."), st.just("2."), st.just("\x0c")).filter(lambda t: "\n" not in t and "\x00" not in t), min_size=1, max_size=5))     # (the macro is stored in one NUL-free buffer line)     # the macro is stored in one buffer line
     return {"kind": kind, "lines": lines, "P": P, "body": body, "N": N, "S": S}
 
 
